@@ -53,12 +53,14 @@ def run(ctx):
         os.makedirs(d, exist_ok=True)
         env = dict(vlib.go_env(), VERIF_OUT=d, VERIF_SEED=str(ctx.seed), VERIF_SHARD="%d/%d" % (i, shards),
                    VERIF_RUNS="400" if ctx.quick else "40000", VERIF_SYS_PCT="100")
+        lf = open(os.path.join(d, "driver.log"), "w")   # a file, not a pipe: nobody drains the other shards' pipes meanwhile
         procs.append((d, subprocess.Popen([binary, "-test.run", "^TestVerifC03LockRows$", "-test.timeout", "3h"],
                                           cwd=os.path.join("/repo", "internal/dcs"), env=env,
-                                          stdout=subprocess.PIPE, stderr=subprocess.STDOUT, text=True)))
+                                          stdout=lf, stderr=subprocess.STDOUT)))
     hist = []
     for d, p in procs:
-        o, _ = p.communicate(timeout=11000)
+        p.wait(timeout=11000)
+        o = open(os.path.join(d, "driver.log"), errors="replace").read()[-400000:]
         if p.returncode != 0:
             raise vlib.Inconclusive("lock history driver failed:\n" + o[-3000:])
         hist += vlib.read_ndjson(os.path.join(d, "rows.ndjson"))
